@@ -527,6 +527,11 @@ func (s *session) handleLogon(msg *Message) error {
 	if err := s.verifyMsgAgainstAppImpl(msg); err != nil {
 		return err
 	}
+	// That includes its BeginString, CompIDs and SendingTime: a Logon that is going to be refused
+	// must not reset the sequence numbers first (the sequence number itself is checked after the reset).
+	if err := s.verifySelect(msg, false, false, false); err != nil {
+		return err
+	}
 
 	var resetSeqNumFlag FIXBoolean
 	if err := msg.Body.GetField(tagResetSeqNumFlag, &resetSeqNumFlag); err == nil {
